@@ -26,6 +26,7 @@ CONSTANTS Threads,      \* e.g. {t1, t2}
 
 None == "none"
 Absent == 0
+Broken == 0 - 1         \* the file exists, but reading it fails after part of it has arrived: a failed load like any other
 
 VARIABLES
   \* ---- implementation state
@@ -65,7 +66,7 @@ TypeOK ==
   /\ cache \in [Sets -> [Names -> Nat]]
   /\ debug \in [Sets -> BOOLEAN]
   /\ mutex \in [Sets -> Threads \cup {None}]
-  /\ file \in [Names -> 0..MaxVer]
+  /\ file \in [Names -> Broken..MaxVer]
   /\ bannedT \in [Sets -> SUBSET Vocab]
   /\ bannedF \in [Sets -> SUBSET Vocab]
   /\ frozen \in [Sets -> BOOLEAN]
@@ -131,7 +132,7 @@ FcBegin(t, s, n) ==
   /\ frozen' = [frozen EXCEPT ![s] = IF debug[s] THEN TRUE ELSE @]
   /\ IF debug[s]
        THEN /\ fetches' = [fetches EXCEPT ![s][n] = @ + 1]
-            /\ IF file[n] = Absent
+            /\ IF file[n] <= Absent
                  THEN /\ Done(t, [op |-> "FromCache", s |-> s, n |-> n, res |-> 0, how |-> "bypass", ver |-> 0])
                       /\ UNCHANGED <<nextId, tplVer, tplOpt, tplEpoch>>
                  ELSE /\ Done(t, [op |-> "FromCache", s |-> s, n |-> n, res |-> nextId, how |-> "bypass", ver |-> file[n], g |-> glob[s], o |-> opt[s]])
@@ -166,7 +167,7 @@ FcCrit(t) ==
        ELSE \* miss: FromFile (freezes the set, reads through the loaders)
             /\ fetches' = [fetches EXCEPT ![s][n] = @ + 1]
             /\ frozen' = [frozen EXCEPT ![s] = TRUE]
-            /\ IF file[n] = Absent
+            /\ IF file[n] <= Absent
                  THEN /\ cur' = [cur EXCEPT ![t].res = 0, ![t].ep = epoch[s][n]]
                       /\ UNCHANGED <<cache, nextId, tplVer, tplOpt, tplEpoch, loads>>
                  ELSE /\ cache' = [cache EXCEPT ![s][n] = nextId]
@@ -323,7 +324,7 @@ NextCache ==
   \/ \E s \in Sets, b \in BOOLEAN : SetDebug(s, b)
   \/ \E s \in Sets, v \in 0..1 : SetGlobal(s, v)
   \/ \E s \in Sets, b \in BOOLEAN : SetOpt(s, b)
-  \/ \E n \in Names, v \in 0..MaxVer : ChangeFile(n, v)
+  \/ \E n \in Names, v \in Broken..MaxVer : ChangeFile(n, v)
 
 NextBan ==
   \/ \E t \in Threads, s \in Sets, k \in {"tag", "filter"}, x \in Vocab \cup {"unknown_name"} : Ban(t, s, k, x)
